@@ -8,7 +8,7 @@ if ! git apply "$patch" 2>/dev/null; then
   if ! git apply --3way "$patch" 2>/dev/null; then echo "PATCH DOES NOT APPLY: $patch"; git reset -q --hard HEAD; exit 8; fi
 fi
 for p in "$@"; do
-  out=$(cd /verif && ./check "$p" 2>&1); rc=$?
+  out=$(cd /verif && VERIF_EVIDENCE_DIR=$(mktemp -d /tmp/seedtest_ev.XXXXXX) ./check "$p" 2>&1); rc=$?   # evidence of a patched tree never lands in /verif/evidence
   echo "== $p exit=$rc"; echo "$out" | grep -A2 "^VIOLATION\|ANALYSIS-ERROR" | grep -v "^--" | head -12
 done
 git reset -q --hard HEAD; git status --short | head -3
